@@ -133,47 +133,110 @@ Definition sprand_subs (nz : nat) (s : shape) (draws : list (list (list Z))) : l
   if length (fst r) <? nz
   then unique_rows (firstn nz (dedup_first (pool_rows s (firstn (snd r) draws))))
   else sprand_loop_subs nz s draws.
+(* np.array(list(np.ndindex(shape...))): EVERY subscript of the shape, last index fastest = ascending lexicographic order *)
+Fixpoint all_rows (s : shape) : list idx :=
+  match s with
+  | [] => [[]]
+  | d :: s' => flat_map (fun k => map (cons k) (all_rows s')) (seq 0 d)
+  end.
+(* the whole body after the request has been normalised, with the list `init` the loop STARTS from
+   (subs = init; pool = subs): the redraw loop, the union fallback over init and every consumed draw, the truncation.
+   init = [] is the ordinary request (sprand_subs, Proofs/C20Sat.v: sprand_subs_from_nil);
+   a saturated request (repair of C20-N3, /repo 2b4b024) starts from all_rows shape with nz = prod(shape):
+   the loop condition len(subs) < nonzeros is false at once, no draw is consumed, every subscript is stored *)
+Definition sprand_subs_from (init : list idx) (nz : nat) (s : shape) (draws : list (list (list Z))) : list idx :=
+  let r := redraw 10 nz s init draws in
+  if length (fst r) <? nz
+  then unique_rows (firstn nz (dedup_first (init ++ pool_rows s (firstn (snd r) draws))))
+  else firstn nz (fst r).
+Definition sprand_consumed_from (init : list idx) (nz : nat) (s : shape) (draws : list (list (list Z))) : nat :=
+  snd (redraw 10 nz s init draws).
+Definition sprand_init (sat : bool) (s : shape) : list idx := if sat then all_rows s else [].
+(* stored subscripts / number of draws consumed for a normalised request (saturated, nz) *)
+Definition sprand_req_subs (sat : bool) (nz : nat) (s : shape) (draws : list (list (list Z))) : list idx :=
+  sprand_subs_from (sprand_init sat s) nz s draws.
+Definition sprand_req_consumed (sat : bool) (nz : nat) (s : shape) (draws : list (list (list Z))) : nat :=
+  sprand_consumed_from (sprand_init sat s) nz s draws.
 (* sptensor.from_function(f, shape, nonzeros) after the request has been normalised to a count nz:
    vals = f((nnz, 1)) is an input (a list of the right length) *)
 Definition sprand (nz : nat) (s : shape) (draws : list (list (list Z))) (vals : list V) : sparse V :=
   mkSp s (sprand_subs nz s draws) vals.
+Definition sprand_req (sat : bool) (nz : nat) (s : shape) (draws : list (list (list Z))) (vals : list V) : sparse V :=
+  mkSp s (sprand_req_subs sat nz s draws) vals.
 
-(* the request: a rational p/q (q > 0). sptensor.from_function: reject p/q < 0 and p/q >= total; p/q < 1 is a
-   density, count = ceil(prod(shape) * nonzeros) — pyttb forms that product in double arithmetic, so the ROUNDED
-   product r = rn/rd is an input of the faithful model (norm_request_fl); otherwise count = floor(p/q).
-   A count of zero is admissible (repair C20-N2): the redraw loop does not run, the empty tensor is returned. *)
+(* ---- the request (after /repo 2b4b024, repair of C20-N3: a request EQUAL to the tensor size is admissible) ----
+   saturated = False
+   if nonzeros < 0 or nonzeros > prod(shape) or prod(shape) == 0: reject
+   elif nonzeros == prod(shape): saturated = True; nonzeros = int(prod(shape))
+   elif nonzeros < 1: nonzeros = int(ceil(prod(shape) * nonzeros))
+   else: nonzeros = int(floor(nonzeros))
+   The request is a rational p/q (q > 0); the comparisons of a Python float with an int are exact. pyttb forms the
+   product prod(shape) * nonzeros in double arithmetic, so the ROUNDED product r = rn/rd is an input of the faithful
+   model (norm_request_fl). Result: (saturated, count). A count of zero is admissible (repair C20-N2): the redraw loop
+   does not run, the empty tensor is returned. *)
 Definition zceil (n : Z) (d : positive) : Z := (- ((- n) / Zpos d))%Z.
-Definition norm_request_fl (total : nat) (p : Z) (q : positive) (rn : Z) (rd : positive) : option nat :=
+Definition norm_request_fl (total : nat) (p : Z) (q : positive) (rn : Z) (rd : positive) : option (bool * nat) :=
   let t := Z.of_nat total in
-  if (p <? 0)%Z || (t * Zpos q <=? p)%Z then None
-  else if (p <? Zpos q)%Z then Some (Z.to_nat (zceil rn rd))
-  else Some (Z.to_nat (p / Zpos q)).
+  if (p <? 0)%Z || (t * Zpos q <? p)%Z || (t =? 0)%Z then None
+  else if (p =? t * Zpos q)%Z then Some (true, total)
+  else if (p <? Zpos q)%Z then Some (false, Z.to_nat (zceil rn rd))
+  else Some (false, Z.to_nat (p / Zpos q)).
 (* ... with the exact product total * p/q in place of the rounded one *)
-Definition norm_request (total : nat) (p : Z) (q : positive) : option nat :=
+Definition norm_request (total : nat) (p : Z) (q : positive) : option (bool * nat) :=
   norm_request_fl total p q (Z.of_nat total * p) q.
-(* what the property asks of a request: ANY count up to the tensor size (a value below one is a density);
-   differs from norm_request only at p/q = total (finding C20-N3, open) *)
+(* what the property asks of a request: ANY count up to the tensor size, the size included (a value below one is a
+   density); a tensor without cells admits no request (pyttb's sparse tensor cannot have a mode of size zero: the
+   constructor rejects it, cf. C20_sptendiag_guard) *)
 Definition norm_request_spec (total : nat) (p : Z) (q : positive) : option nat :=
   let t := Z.of_nat total in
-  if (p <? 0)%Z || (t * Zpos q <? p)%Z then None
+  if (p <? 0)%Z || (t * Zpos q <? p)%Z || (t =? 0)%Z then None
   else if (p <? Zpos q)%Z then Some (Z.to_nat (zceil (t * p) q))
   else Some (Z.to_nat (p / Zpos q)).
 
 (* sptenrand(shape, density = p/q): the guard 0 < density <= 1, then (repair C20-N1)
-   valid_nonzeros = int(floor(prod(shape) * density)) — an INTEGER count, handed to from_function.
+   valid_nonzeros = int(floor(prod(shape) * density)) - an INTEGER count, handed to from_function
+   (density 1 gives the size itself: the saturated branch).
    The double product r = rn/rd is again an input of the faithful model. *)
 Definition sptenrand_guard (p : Z) (q : positive) : bool := (0 <? p)%Z && (p <=? Zpos q)%Z.
-Definition sptenrand_count_fl (total : nat) (p : Z) (q : positive) (rn : Z) (rd : positive) : option nat :=
+Definition sptenrand_count_fl (total : nat) (p : Z) (q : positive) (rn : Z) (rd : positive) : option (bool * nat) :=
   if sptenrand_guard p q then norm_request total (rn / Zpos rd) 1 else None.
-Definition sptenrand_count_impl (total : nat) (p : Z) (q : positive) : option nat :=
+Definition sptenrand_count_impl (total : nat) (p : Z) (q : positive) : option (bool * nat) :=
   sptenrand_count_fl total p q (Z.of_nat total * p) q.
-(* what the property asks for: floor(total * density) entries for every density in (0, 1] *)
+(* what the property asks for: floor(total * density) entries for every density in (0, 1] (no tensor without cells) *)
 Definition sptenrand_count_spec (total : nat) (p : Z) (q : positive) : nat :=
   Z.to_nat (Z.of_nat total * p / Zpos q).
 Definition sptenrand_request_spec (total : nat) (p : Z) (q : positive) : option nat :=
-  if sptenrand_guard p q then Some (sptenrand_count_spec total p q) else None.
+  if sptenrand_guard p q && negb (Nat.eqb total 0) then Some (sptenrand_count_spec total p q) else None.
 
 End Gen.
+
+(* ---------------------------------------------------------------- the double product, rounded by the model itself *)
+Local Open Scope Z_scope.
+(* nearest integer to a/b (b > 0), ties to even *)
+Definition rne (a b : Z) : Z :=
+  let q := a / b in let r := a mod b in
+  if 2 * r <? b then q else if b <? 2 * r then q + 1 else if Z.even q then q else q + 1.
+
+(* 2^k as a pair of integer scales: 2^k = pow2p k / pow2n k *)
+Definition pow2p (k : Z) : Z := 2 ^ (Z.max k 0).
+Definition pow2n (k : Z) : Z := 2 ^ (Z.max (- k) 0).
+(* n/d >= 2^k *)
+Definition ge_pow2 (n d k : Z) : bool := d * pow2p k <=? n * pow2n k.
+(* floor (log2 (n/d)) for n, d > 0 *)
+Definition flog2 (n d : Z) : Z :=
+  let k0 := Z.log2 n - Z.log2 d in if ge_pow2 n d k0 then k0 else k0 - 1.
+(* the binary64 number nearest to n/d, as a fraction *)
+Definition round64 (n : Z) (d : positive) : Z * positive :=
+  if n <=? 0 then (0, 1%positive) else
+  let e := flog2 n (Zpos d) - 52 in
+  (rne (n * pow2n e) (Zpos d * pow2p e) * pow2p e, Z.to_pos (pow2n e)).
+
+(* the request models with the product prod(shape) * p/q rounded to binary64 BY THE MODEL (nothing float enters as an input) *)
+Definition norm_request_r64 (total : nat) (p : Z) (q : positive) : option (bool * nat) :=
+  let r := round64 (Z.of_nat total * p) q in norm_request_fl total p q (fst r) (snd r).
+Definition sptenrand_count_r64 (total : nat) (p : Z) (q : positive) : option (bool * nat) :=
+  let r := round64 (Z.of_nat total * p) q in sptenrand_count_fl total p q (fst r) (snd r).
+Local Close Scope Z_scope.
 
 (* ---------------------------------------------------------------- teneye (entry formula, exact arithmetic on counts) *)
 Fixpoint insert_all (x : nat) (l : list nat) : list (list nat) :=
